@@ -408,4 +408,24 @@ theorem adone_exc_held {fn : Nat} (c : Cfg) (f k : Nat) (e : Exc) (hR : Reach c)
     fn wf (aw.filter (·.1 ≠ f)) (.failed e) rfl he
   exact .held wf wk' _ h1 h2 h3
 
+/-! ### the corpus programs `Chain` and `Chain2` of harness/pm.py -/
+
+/-- the corpus program `Chain2` of harness/pm.py (`chain_prog([[(0, 0), (1, 1)], [(2, 0)], []], 3)`): step 0 awaits futures
+0 and 1 under the keys 0 and 1, step 1 awaits future 2 under the key 0 again, step 2 stops -/
+def Chain2 : Prog := fun fn _ _ _ =>
+  if fn = 0 then ⟨0, .ret (.waitOn 1 [(0, 0), (1, 1)])⟩
+  else if fn = 1 then ⟨0, .ret (.waitOn 2 [(2, 0)])⟩ else ⟨0, .ret (.stop none true)⟩
+
+/-- the corpus program `Chain` (`chain_prog([[(0, 0)], []], 1)`): step 0 awaits future 0 under key 0, step 1 stops -/
+def Chain : Prog := fun fn _ _ _ =>
+  if fn = 0 then ⟨0, .ret (.waitOn 1 [(0, 0)])⟩ else ⟨0, .ret (.stop none true)⟩
+
+theorem chain2_awDistinct : AwDistinct Chain2 := by
+  intro fn args kw ctx; unfold Chain2; split
+  · simp [OutOk, DistinctF]
+  · split <;> simp [OutOk, DistinctF]
+
+theorem chain_awDistinct : AwDistinct Chain := by
+  intro fn args kw ctx; unfold Chain; split <;> simp [OutOk, DistinctF]
+
 end PMF.B10
